@@ -43,8 +43,8 @@ KeywordKind(d, s) ==
      [] EqFold(s, "END_OBJECT") -> "EO"
      [] EqFold(s, "GROUP") -> "BG"
      [] EqFold(s, "OBJECT") -> "BO"
-     [] EqFold(s, "BEGIN_GROUP") -> "BG"      \* also under the ISIS grammar: the library's ISIS tables keep the
-     [] EqFold(s, "BEGIN_OBJECT") -> "BO"     \* BEGIN_ forms and property C03 asks for them in every configuration
+     [] d # "ISIS" /\ EqFold(s, "BEGIN_GROUP") -> "BG"     \* the ISIS grammar has no BEGIN_ forms
+     [] d # "ISIS" /\ EqFold(s, "BEGIN_OBJECT") -> "BO"
      [] OTHER -> ""
 
 (* ---------------- quoted strings ---------------- *)
@@ -271,6 +271,7 @@ Classify(d, s) ==
    IF tp.c # "no" THEN tp
    ELSE IF ~UnquotedShape(d, s) THEN [c |-> "nav", v |-> NoVal]
    ELSE IF KeywordKind(d, s) # "" THEN [c |-> "kw", v |-> NoVal]
+   ELSE IF d = "ISIS" /\ (EqFold(s, "BEGIN_GROUP") \/ EqFold(s, "BEGIN_OBJECT")) THEN [c |-> "unspec", v |-> NoVal]
    ELSE IF OdlValues(d) /\ ~IsIdentifier(s) THEN [c |-> "nav", v |-> NoVal]
    ELSE [c |-> "unq", v |-> N("str", s, <<>>)]
 
